@@ -1,7 +1,48 @@
 use crate::engine::Prop;
 
+pub mod c01;
+pub mod c02;
+pub mod c03;
+pub mod c04;
+pub mod c05;
+pub mod c06;
+pub mod c07;
+pub mod c08;
+pub mod c09;
+pub mod c10;
+pub mod c11;
+pub mod c12;
+pub mod c13;
+pub mod c14;
+pub mod c15;
+pub mod c16;
 pub mod c17;
+pub mod c18;
+pub mod c19;
+pub mod c20;
 
 pub fn all() -> Vec<Prop> {
-    vec![c17::prop()]
+    let v: Vec<Option<Prop>> = vec![
+        c01::prop().into(),
+        c02::prop().into(),
+        c03::prop().into(),
+        c04::prop().into(),
+        c05::prop().into(),
+        c06::prop().into(),
+        c07::prop().into(),
+        c08::prop().into(),
+        c09::prop().into(),
+        c10::prop().into(),
+        c11::prop().into(),
+        c12::prop().into(),
+        c13::prop().into(),
+        c14::prop().into(),
+        c15::prop().into(),
+        c16::prop().into(),
+        c17::prop().into(),
+        c18::prop().into(),
+        c19::prop().into(),
+        c20::prop().into(),
+    ];
+    v.into_iter().flatten().collect()
 }
